@@ -88,6 +88,11 @@ func runReentrancyChild(c *core.Ctx) {
 	if c.Thorough() {
 		rounds, budget = 40, 60*time.Second
 	}
+	// time slice of one pair in one round: the budget spread over all pairs and rounds, at most 25 ms
+	slice := budget / time.Duration(rounds*len(ops)*len(ops)+1)
+	if slice > 25*time.Millisecond {
+		slice = 25 * time.Millisecond
+	}
 	pairs, mism := 0, 0
 	var first string
 	t0 := time.Now()
@@ -105,9 +110,13 @@ func runReentrancyChild(c *core.Ctx) {
 					go func(k, oi int) {
 						defer wg.Done()
 						<-start
-						for n := 0; n < 3; n++ {
+						// at least 3 repetitions; cheap operations keep going for the pair's time slice (narrow windows
+						// between two non-atomic steps need many overlapping attempts)
+						t0 := time.Now()
+						for n := 0; n < 3 || (n < 4000 && time.Since(t0) < slice); n++ {
 							if got := ops[oi].run(); got != want[oi] {
 								res[k] = got
+								break
 							}
 						}
 					}(k, oi)
